@@ -31,7 +31,7 @@ func init() {
 		id:    "C17",
 		level: "exploration",
 		rule: "PRNG scenarios over real loopback TCP: 1-8 sender goroutines x 1-6 target actors x message counts, cross-engine request/response, then 1-2 rounds of peer-down / peer-up with senders kept running across the peer's death and delays injected at the registry's lock operations; " +
-			"oracle in up phases: exactly-once, per-(sender,target) order, sender PID fidelity, replies correlated; in down phases (after RemoteUnreachableEvent has been observed): a burst of k sends yields exactly k DeadLetterEvents for stream/<addr> and a further RemoteUnreachableEvent; after the peer is back a fresh send is delivered; after Stop().Wait() a TCP dial fails; second Start errors, second Stop returns. Distinct by (senders, targets, rounds, burst size)",
+			"oracle in up phases: exactly-once, per-(sender,target) order, sender PID fidelity, replies correlated; in down phases (after RemoteUnreachableEvent has been observed): a burst of k sends yields exactly k DeadLetterEvents for stream/<addr> and a further RemoteUnreachableEvent; after the peer is back a fresh send is delivered; after Stop().Wait() a TCP dial fails; second Start errors, second Stop returns; tcp-react: 1-100 event-stream subscribers re-send on the RemoteUnreachableEvent while the peer is already back up - every such send is a later send and must arrive. Distinct by (senders, targets, rounds, burst size) / (subscribers, inline ones)",
 		assumptions: []string{
 			"messages in flight while a connection dies are not judged (the statement covers sends 'while the connection stays up' and sends handed to a failed attempt)",
 			"each failed connection attempt costs about 3 s of real time (three dials with 0+1+2 s pauses in the code under test), so the number of down phases per run is small",
@@ -46,9 +46,15 @@ func init() {
 				{name: "tcp", n: n, perChild: 1, parallel: 16, netns: true, timeout: 10 * time.Minute},
 				{name: "tcp-tls", n: n / 2, perChild: 1, parallel: 16, netns: true, timeout: 10 * time.Minute},
 				{name: "tcp-chaos", n: n, perChild: 1, parallel: 16, netns: true, timeout: 10 * time.Minute, env: []string{"VERIF_HOOK=chaos", "VERIF_HOOK_PROB=30", "VERIF_HOOK_MAXUS=100", "VERIF_HOOK_LOCKUS=3000"}},
+				{name: "tcp-react", n: n, perChild: 2, parallel: 16, netns: true, timeout: 10 * time.Minute},
 			}
 		},
-		run:         c17Run,
+		run: func(c *caseCtx) caseResult {
+			if c.mode == "tcp-react" {
+				return c17React(c)
+			}
+			return c17Run(c)
+		},
 		minDistinct: 8,
 	})
 }
